@@ -52,6 +52,7 @@ def parseFilter (s : String) : Option Filter :=
     st.bind (fun stack =>
       match tok.splitOn ":" with
       | ["all"] => some (Filter.all :: stack)
+      | ["t", h] => (hexStr? h).map (fun w => Filter.term w :: stack)
       | ["c", f, op, l] => match parseOp op, parseLit l with
         | some op, some l => some (Filter.cmp f op l :: stack)
         | _, _ => none
@@ -139,6 +140,7 @@ def answer (evs : List Event) (q : Query) : String :=
   -- engine by the statement, but the engine's answer must not depend on the layout (it does: known finding)
   let rec hasNeg : Filter → Bool
     | .all => false
+    | .term _ => false
     | .cmp _ op _ => op == .ne
     | .and a b => hasNeg a || hasNeg b
     | .or a b => hasNeg a || hasNeg b
